@@ -284,7 +284,9 @@ func (e *G1) UnmarshalCompressed(data []byte) ([]byte, error) {
 		e.p.x.Set(zero)
 		e.p.y.Set(zero)
 	}
-	e.p.x.Unmarshal(data[1:])
+	if err := e.p.x.Unmarshal(data[1:]); err != nil {
+		return nil, err
+	}
 	montEncode(&e.p.x, &e.p.x)
 	x3 := e.p.polynomial(&e.p.x)
 	e.p.y.Sqrt(x3)
@@ -343,8 +345,12 @@ func (e *G1) Unmarshal(m []byte) ([]byte, error) {
 		e.p.y.Set(zero)
 	}
 
-	e.p.x.Unmarshal(m)
-	e.p.y.Unmarshal(m[numBytes:])
+	if err := e.p.x.Unmarshal(m); err != nil {
+		return nil, err
+	}
+	if err := e.p.y.Unmarshal(m[numBytes:]); err != nil {
+		return nil, err
+	}
 	montEncode(&e.p.x, &e.p.x)
 	montEncode(&e.p.y, &e.p.y)
 
